@@ -2,13 +2,19 @@
 import math
 
 from checks import c11
-from checks.c11 import ELL, Upd, finite, gen_friction, hexf, impedance, parse_upd_out, unhex
+from checks.c11 import ELL, Upd, finite, gen_friction, hexf, impedance, parse_upd_out, pos_scale, unhex
+from gen.enums import E
+from gen.models import ModelGen
+
+# this check never reads lean/MjProof/Gen (hand models only): no generated-code lock needed
+USES_GEN = False
 
 META = {
     "technique": "Lean 4 proof (two-sided quadratic sandwich cost(z)+g(z)(x-z) <= cost(x) <= cost(z)+g(z)(x-z)+L/2 (x-z)^2 with g = -force, "
                  "proved per row kind and for the whole elliptic cone block; derivative, convexity and C1 follow) over the hand model "
-                 "of mj_constraintUpdate_impl + bitwise differential correspondence with the compiled function + central-difference "
-                 "oracle on the real function's returned cost / force / cone Hessian",
+                 "of mj_constraintUpdate_impl and of mj_makeImpedance (the producer of efc_D / contact.mu) + bitwise differential "
+                 "correspondence with the compiled functions + central-difference oracle on the real function's returned cost / force / "
+                 "cone Hessian, with synthetic parameters and with the parameters mj_forward produces on generated scenes",
     "text": "Proved over the reals: for equality, friction-loss and one-sided (limit / frictionless / pyramidal) rows the returned force "
             "is minus the derivative of the returned cost at EVERY residual including the kink points, the force is continuous (C1) "
             "and the cost convex; for the elliptic cone block (any number of friction rows, parameters related as mj_makeImpedance "
@@ -17,9 +23,21 @@ META = {
             "boundaries, the block cost is convex in the whole residual vector (ConvexOn on R x R^n, via the supporting-hyperplane "
             "inequality), and in the middle zone every entry of the cone Hessian written to contact.H equals the derivative of minus "
             "the corresponding force component; the returned cost is the sum of the block costs and the force vector the "
-            "concatenation of the block forces. Model tied bit-for-bit to the compiled mj_constraintUpdate_impl.",
-    "note": "The elliptic results need the relation D_j mu^2 = D_0 friction_j^2 (theorem C11.impedance_relation, checked on engine "
-            "data by C11's oracle); without it the code's cost is discontinuous at the bottom zone boundary. Hessian: proved entry-wise "
+            "concatenation of the block forces. The relation between the cone parameters is itself proved for the model of "
+            "mj_makeImpedance (first-loop clamp R >= mjMINVAL, R[i+1] = R[i]/max(mjMINVAL, impratio), contact.mu, the remaining "
+            "friction rows, D = 1/R): for any efc_diagA, impedance, impratio and positive (possibly anisotropic) friction the "
+            "elliptic theorems hold with the produced parameters without any hypothesis relating them "
+            "(elliptic_derivatives_of_makeImpedance). Models tied bit-for-bit to the compiled mj_constraintUpdate_impl and "
+            "mj_makeImpedance (the latter on assembled rows and on the constraint rows of generated scenes).",
+    "note": "The elliptic results need the relation D_j mu^2 = D_0 friction_j^2; without it the code's cost is discontinuous at the "
+            "bottom zone boundary. It is proved for the model of mj_makeImpedance (makeImpedance_elliptic_relation; the impedance "
+            "value computed by getsolparam/getimpedance is an input of that model, read back from efc_KBIP; efc_KBIP and the final "
+            "efc_diagA adjustment are not modelled; positivity of contact.friction is a hypothesis) and re-checked by the oracle on the "
+            "efc_D / contact.mu of every elliptic contact of the generated scenes (elliptic cone, impratio != 1, explicit <pair>s with "
+            "friction[0] != friction[1], condim 3/4/6), where the finite-difference oracle is also run around the zone boundaries "
+            "with the engine's own parameters. The relation theorem is per contact (impEll); makeImpedance_loop_elliptic_block shows that the "
+            "array-level loop (impGo) writes impEll's output to the rows of each elliptic block it meets (a statement that every "
+            "block of a whole efc array is related is not assembled from it). Hessian: proved entry-wise "
             "for `hessEntry` and for the row-major layout of `coneHess` (theorem elliptic_hessian_block); the in-place += / *= / "
             "symmetrisation order of the C code is covered by the bitwise correspondence. Differentiability is stated as partial "
             "derivatives along each residual coordinate (not as a Frechet derivative).",
@@ -44,6 +62,10 @@ THEOREMS = [
     "MjProof.C12.elliptic_hessian_is_dforce",
     "MjProof.C12.elliptic_force_components",
     "MjProof.C12.update_cost_separable",
+    "MjProof.C12.makeImpedance_elliptic_relation",
+    "MjProof.C12.makeImpedance_pyramidal_rows",
+    "MjProof.C12.elliptic_derivatives_of_makeImpedance",
+    "MjProof.C12.makeImpedance_loop_elliptic_block",
 ]
 
 EPS = 2.220446049250313e-16
@@ -161,25 +183,30 @@ def fd_lines(rng, ncases):
     lines, plan = [], []
     for _ in range(ncases):
         u, coords = fd_case(rng)
-        base = len(lines)
-        lines.append(u.line(1))
-        ent = []
-        for (k, L, s) in coords:
-            h = 2e-7 * s
-            hH = 1e-6 * s
-            ip = len(lines)
-            lines.append(perturbed(u, k, h).line(1))
-            lines.append(perturbed(u, k, -h).line(1))
-            lines.append(perturbed(u, k, hH).line(1))
-            lines.append(perturbed(u, k, -hH).line(1))
-            ent.append((k, L, s, h, ip, ip + 1, hH, ip + 2, ip + 3))
-        plan.append((u, base, ent))
+        add_fd(lines, plan, u, coords)
     return lines, plan
+
+
+def add_fd(lines, plan, u, coords):
+    """append the base line of `u` and the +-h / +-hH perturbations of every coordinate in `coords` to lines / plan"""
+    base = len(lines)
+    lines.append(u.line(1))
+    ent = []
+    for (k, L, s) in coords:
+        h = 2e-7 * s
+        hH = 1e-6 * s
+        ip = len(lines)
+        lines.append(perturbed(u, k, h).line(1))
+        lines.append(perturbed(u, k, -h).line(1))
+        lines.append(perturbed(u, k, hH).line(1))
+        lines.append(perturbed(u, k, -hH).line(1))
+        ent.append((k, L, s, h, ip, ip + 1, hH, ip + 2, ip + 3))
+    plan.append((u, base, ent))
 
 
 def fd_oracle(plan, outs):
     """central differences of the returned cost vs returned force, and of the returned force vs the cone Hessian"""
-    bad, stats = [], {"grad": 0, "hess": 0, "kink_or_boundary": 0}
+    bad, stats = [], {"grad": 0, "hess": 0, "kink_or_boundary": 0, "max_grad_err_over_tol": 0.0, "max_hess_err_over_tol": 0.0}
     for (u, base, ent) in plan:
         b = parse_upd_out(outs[base])
         if b is None:
@@ -204,6 +231,8 @@ def fd_oracle(plan, outs):
             stats["grad"] += 1
             if p[2] != m[2]:
                 stats["kink_or_boundary"] += 1
+            if tol > 0 and abs(fdv + f[k]) <= tol:
+                stats["max_grad_err_over_tol"] = max(stats["max_grad_err_over_tol"], abs(fdv + f[k]) / tol)
             if not (abs(fdv + f[k]) <= tol):
                 kind = blocks[owner[k]][0]
                 bad.append(("c12:force-not-neg-gradient:" + kind,
@@ -230,6 +259,8 @@ def fd_oracle(plan, outs):
                 fdh = (P[1][i0 + a] - M[1][i0 + a]) / dH
                 tolh = 1e-6 * S * wts[a] * wts[j] + 32 * EPS * max(abs(P[1][i0 + a]), abs(M[1][i0 + a])) / dH
                 stats["hess"] += 1
+                if tolh > 0 and abs(fdh + H[a * n + j]) <= tolh:
+                    stats["max_hess_err_over_tol"] = max(stats["max_hess_err_over_tol"], abs(fdh + H[a * n + j]) / tolh)
                 if not (abs(fdh + H[a * n + j]) <= tolh):
                     bad.append(("c12:hessian-not-dforce", "cone Hessian entry (%d,%d) = %r but -d force_%d / d jar_%d = %r (tol %.3g)"
                                 % (a, j, H[a * n + j], a, j, -fdh, tolh), {"line": u.line(1), "row": k, "h": hH, "tags": u.tags}))
@@ -276,9 +307,454 @@ def convexity_oracle(rng, impl, ctx, n):
     return bad, cnt
 
 
+# ------------------------------------------------------------------------------------------ mj_makeImpedance: assembled rows
+PYR = E("mjCNSTR_CONTACT_PYRAMIDAL")
+assert ELL == E("mjCNSTR_CONTACT_ELLIPTIC")
+SCALAR_PRE = (E("mjCNSTR_EQUALITY"), E("mjCNSTR_FRICTION_DOF"), E("mjCNSTR_FRICTION_TENDON"))
+SCALAR_POST = (E("mjCNSTR_LIMIT_JOINT"), E("mjCNSTR_LIMIT_TENDON"), E("mjCNSTR_CONTACT_FRICTIONLESS"))
+
+
+def gen_aniso_friction(rng):
+    """five friction coefficients as a <pair> can carry them: tangential pair possibly anisotropic"""
+    k = rng.random()
+    if k < 0.3:
+        return gen_friction(rng)
+    f1 = rng.uniform(0.05, 2.0)
+    f2 = rng.uniform(0.05, 2.0)
+    if k < 0.4:
+        f2 = f1 * rng.choice((0.1, 10.0))
+    t = rng.uniform(0.001, 0.1)
+    r1 = rng.uniform(0.0001, 0.01)
+    r2 = r1 if rng.random() < 0.4 else rng.uniform(0.0001, 0.01)
+    if rng.random() < 0.1:
+        return [rng.choice((1e-5, 1.0, f1)) for _ in range(5)]
+    return [f1, f2, t, r1, r2]
+
+
+def gen_imp_value(rng):
+    return rng.choice((0.9, 0.95, 0.5, 0.0001, 0.9999, rng.uniform(0.0001, 0.9999), rng.uniform(0.8, 0.9999)))
+
+
+def gen_impratio(rng):
+    k = rng.random()
+    if k < 0.25:
+        return 1.0
+    if k < 0.6:
+        return rng.choice((0.25, 0.5, 3.0, 4.0, 10.0, 100.0))
+    if k < 0.9:
+        return 10.0 ** rng.uniform(-3, 3)
+    return rng.choice((0.0, -1.0, 1e-15, 1e-16, 1e-300, 1e300, float("inf"), float("nan"), 5e-324))
+
+
+def gen_diagA(rng):
+    k = rng.random()
+    if k < 0.9:
+        return pos_scale(rng)
+    return rng.choice((0.0, -1.0, 1e-18, 1e-300, 1e300, 5e-324))
+
+
+def imp_line(nefnf, impratio, rows, cons):
+    t = ["imp", str(nefnf), hexf(impratio), str(len(rows)), str(len(cons))]
+    for (a, im, ty, k) in rows:
+        t += [hexf(a), hexf(im), str(ty), str(k)]
+    for (dim, fr) in cons:
+        t += [str(dim)] + [hexf(f) for f in fr]
+    return " ".join(t)
+
+
+def gen_imp_case(rng):
+    """one well-formed `imp` op: scalar rows, then blocks; every frictional block owns a fresh contact"""
+    nefnf = rng.choice((0, 0, 1, 2, 3))
+    rows, tags = [], []
+    for _ in range(nefnf):
+        rows.append((gen_diagA(rng), gen_imp_value(rng), rng.choice(SCALAR_PRE), 0))
+    blocks = []
+    for _ in range(rng.randint(0, 5)):
+        k = rng.random()
+        if k < 0.25:
+            rows.append((gen_diagA(rng), gen_imp_value(rng), rng.choice(SCALAR_POST), 0))
+            continue
+        ty = ELL if k < 0.75 else PYR
+        dim = rng.choice((3, 4, 6, 3, 4, 6, 3, 4, 6, 2, 5))
+        blocks.append((len(rows), ty, dim))
+        im = gen_imp_value(rng)
+        nrows = dim if ty == ELL else 2 * (dim - 1)
+        # diagA as mj_diagApprox sets it: translational for the first three rows, rotational after (any values do)
+        tran, rot = gen_diagA(rng), gen_diagA(rng)
+        for j in range(nrows):
+            rows.append((tran if j < 3 else rot, im, ty, len(blocks) - 1))
+    # contacts: those of the blocks plus unused ones, in shuffled order
+    ncon = len(blocks) + rng.choice((0, 0, 1, 2))
+    perm = list(range(ncon))
+    rng.shuffle(perm)
+    cons = [None] * ncon
+    for b, (i0, ty, dim) in enumerate(blocks):
+        cons[perm[b]] = (dim, gen_aniso_friction(rng))
+        tags.append("%s:%d" % ("ell" if ty == ELL else "pyr", dim))
+    for c in range(ncon):
+        if cons[c] is None:
+            cons[c] = (rng.choice((1, 3, 4, 6)), gen_aniso_friction(rng))
+    rows = [(a, im, ty, perm[k] if ty in (ELL, PYR) else 0) for (a, im, ty, k) in rows]
+    impratio = gen_impratio(rng)
+    return nefnf, impratio, rows, cons, tags
+
+
+IMP_MALFORMED = [
+    "imp 0 3ff0000000000000 1 0 3ff0000000000000 3fe0000000000000 7 0",                          # contact id out of range
+    "imp 0 3ff0000000000000 1 1 3ff0000000000000 3fe0000000000000 7 0 1 " + " ".join(["3ff0000000000000"] * 5),   # dim 1 frictional
+    "imp 0 3ff0000000000000 2 1 " + "3ff0000000000000 3fe0000000000000 7 0 " * 2 + "3 " + " ".join(["3ff0000000000000"] * 5),  # block past nefc
+    "imp 0 3ff0000000000000 2 1 " + "3ff0000000000000 3fe0000000000000 6 0 " * 2 + "3 " + " ".join(["3ff0000000000000"] * 5),  # pyramidal block past nefc
+    "imp 1 3ff0000000000000 1 1 3ff0000000000000 3fe0000000000000 7 0 3 " + " ".join(["3ff0000000000000"] * 5),   # frictional row before ne+nf
+    "imp 0 3ff0000000000000 1 0 3ff0000000000000 3fe0000000000000 9 0",                          # not an mjtConstraint
+    "imp 0 3ff0000000000000 1 0 3ff0000000000000 3fe0000000000000 3",                            # short
+    "imp 2 3ff0000000000000 1 0 3ff0000000000000 3fe0000000000000 3 0",                          # nefc < ne+nf
+]
+
+
+def parse_imp_out(out):
+    """'R .. | D .. | m ..' -> (R, D, mu list with None for unwritten) or None"""
+    if not out.startswith("R "):
+        return None
+    p = out.split(" | ")
+    if len(p) != 3 or not p[1].startswith("D") or not p[2].startswith("m"):
+        return None
+    R = [unhex(x) for x in p[0].split()[1:]]
+    D = [unhex(x) for x in p[1].split()[1:]]
+    mu = [None if x == "-" else unhex(x) for x in p[2].split()[1:]]
+    return R, D, mu
+
+
+def sane(*xs):
+    return all(finite(x) and 1e-140 < abs(x) < 1e140 for x in xs)
+
+
+def relation_failures(D0, Dt, mu, fr, rtol=1e-9):
+    """the hypothesis of the elliptic theorems on concrete numbers: mu > 0, D > 0, D_j mu^2 = D_0 friction_j^2.
+    Returns list of (j, lhs, rhs); j = 0 flags a sign problem."""
+    bad = []
+    if not (mu > 0 and D0 > 0):
+        return [(0, mu, D0)]
+    for j, (Dj, w) in enumerate(zip(Dt, fr), start=1):
+        a, b = Dj * mu * mu, D0 * w * w
+        if not (Dj > 0) or abs(a - b) > rtol * max(abs(a), abs(b)):
+            bad.append((j, a, b))
+    return bad
+
+
+def imp_oracle(case, out):
+    """relation between the efc_D of the rows of every elliptic block and contact.mu on the output of the real function"""
+    nefnf, impratio, rows, cons, tags = case
+    r = parse_imp_out(out)
+    if r is None:
+        return []
+    R, D, mus = r
+    bad = []
+    i = nefnf
+    while i < len(rows):
+        ty, cid = rows[i][2], rows[i][3]
+        if ty not in (ELL, PYR):
+            i += 1
+            continue
+        dim, fr = cons[cid]
+        nrows = dim if ty == ELL else 2 * (dim - 1)
+        mu = mus[cid]
+        if ty == ELL and mu is not None and sane(mu, *D[i:i + dim]) and sane(*fr[:dim - 1]) and all(f > 0 for f in fr[:dim - 1]):
+            for (j, a, b) in relation_failures(D[i], D[i + 1:i + dim], mu, fr):
+                bad.append(("c12:impedance-relation", "mj_makeImpedance, elliptic contact of dim %d, impratio %r, friction %r: row %d has "
+                            "efc_D*mu^2 = %r but efc_D[normal]*friction^2 = %r (the bottom-zone and middle-zone cost of "
+                            "mj_constraintUpdate_impl then differ on their common boundary)" % (dim, impratio, fr[:dim - 1], j, a, b)))
+        i += nrows
+    return bad
+
+
+# ------------------------------------------------------------------------------------------ engine scenes
+C12_SCENE_PROFILE = dict(c11.SCENE_PROFILE, nbody=(2, 5), free=0.8, condim=(3, 4, 6, 3, 4, 6, 1), pairs=0.5, equalities=0.4, tendons=0.3)
+GEOM_SIZES = {"sphere": 1, "capsule": 2, "ellipsoid": 3, "cylinder": 2, "box": 3}
+
+
+def pair_lines(rng, h, g1, g2):
+    """a <pair> with explicit condim / five friction coefficients (the only way to get friction[0] != friction[1]) and,
+    sometimes, its own solref / solreffriction / solimp / margin"""
+    L = ["pair %d" % h, "set %d geomname1 %s" % (h, g1), "set %d geomname2 %s" % (h, g2),
+         "set %d condim %d" % (h, rng.choice((3, 4, 6))),
+         "set %d friction %s" % (h, " ".join(repr(f) for f in gen_aniso_friction(rng)))]
+    if rng.random() < 0.4:
+        a, b = sorted((rng.uniform(0.5, 0.99), rng.uniform(0.5, 0.99)))
+        L.append("set %d solimp %r %r %r %r %r" % (h, a, b, rng.uniform(0.0005, 0.05), rng.uniform(0.2, 0.8), rng.choice((1.0, 2.0, 3.0))))
+    if rng.random() < 0.3:
+        L.append("set %d solref %r %r" % (h, rng.uniform(0.005, 0.05), rng.uniform(0.5, 2.0)))
+    if rng.random() < 0.3:
+        L.append("set %d solreffriction %r %r" % (h, rng.uniform(0.005, 0.05), rng.uniform(0.5, 2.0)))
+    if rng.random() < 0.3:
+        L.append("set %d margin %r" % (h, rng.uniform(0.0, 0.03)))
+    return L
+
+
+def directed_scene(rng):
+    """free bodies resting on / slightly inside the floor, each with its own floor <pair>; returns (lines, qpos)"""
+    L = ["option timestep %r" % rng.choice((0.002, 0.005)), "geom 1 0", "set 1 type %d" % E("mjGEOM_PLANE"), "set 1 size 5 5 0.1", "name 1 floor"]
+    h, qpos = 1, []
+    nb = rng.randint(2, 4)
+    for b in range(nb):
+        gt = rng.choice(("sphere", "capsule", "ellipsoid", "box", "box", "cylinder"))
+        size = [rng.uniform(0.05, 0.2) for _ in range(GEOM_SIZES[gt])]
+        zr = size[0] + size[1] if gt == "capsule" else size[-1]   # height of the body origin when the geom touches the floor
+        pos = [0.8 * b, rng.uniform(-0.1, 0.1), zr - rng.uniform(-0.002, 0.01)]
+        bh, jh, gh, ph = h + 1, h + 2, h + 3, h + 4
+        h += 4
+        L += ["body %d 0" % bh, "name %d b%d" % (bh, b), "set %d pos %s" % (bh, " ".join(repr(x) for x in pos)),
+              "freejoint %d %d" % (jh, bh), "name %d j%d" % (jh, b),
+              "geom %d %d" % (gh, bh), "name %d g%d" % (gh, b), "set %d type %d" % (gh, E("mjGEOM_" + gt.upper())),
+              "set %d size %s" % (gh, " ".join(repr(x) for x in size))]
+        if rng.random() < 0.85:
+            L += pair_lines(rng, ph, "floor", "g%d" % b)
+        else:
+            L += ["set %d condim %d" % (gh, rng.choice((3, 4, 6)))]
+        tilt = rng.random() < 0.3 and gt != "sphere"
+        q = [1.0, 0.0, 0.0, 0.0]
+        if tilt:
+            a = rng.uniform(-0.1, 0.1)
+            q = [math.cos(a / 2), math.sin(a / 2), 0.0, 0.0]
+        qpos += pos + q
+    return L, qpos
+
+
+def add_floor_pairs(rng, mdl):
+    """post-process a gen/models.py scene: floor <pair>s (anisotropic friction, condim 3/4/6) for geoms of its bodies"""
+    hmax = 0
+    for l in mdl.lines:
+        w = l.split()
+        if len(w) >= 2 and w[1].isdigit():
+            hmax = max(hmax, int(w[1]))
+    extra = []
+    for g in mdl.geoms:
+        if g["type"] != "plane" and g.get("name") and rng.random() < 0.5:
+            hmax += 1
+            extra += pair_lines(rng, hmax, "floor", g["name"])
+    return mdl.lines + extra
+
+
+def scene_script(ctx, nrandom, ndirected):
+    rng = ctx.rng
+    script, meta = [], []
+    for mi in range(nrandom + ndirected):
+        if mi < nrandom:
+            mdl = ModelGen(rng, C12_SCENE_PROFILE).make()
+            mlines = add_floor_pairs(rng, mdl)
+            states = []
+            for si in range(2):
+                st = mdl.random_state(rng, scale=0.7)
+                q = list(st["qpos"])
+                for j in mdl.joints:
+                    if j["type"] == "free":
+                        q[j["qposadr"] + 2] = rng.uniform(0.02, 0.3)
+                states.append((q, st["qvel"]))
+        else:
+            mlines, q = directed_scene(rng)
+            nv = 6 * (len(q) // 7)
+            states = [(q, [0.0] * nv), (q, [rng.gauss(0, 1) * 0.5 for _ in range(nv)])]
+        script.append("model")
+        script += mlines + ["end"]
+        meta.append(("model", None))
+        for si, (q, v) in enumerate(states):
+            for cone in ("ELLIPTIC", "ELLIPTIC", "PYRAMIDAL"):
+                impratio = rng.choice((1.0, 0.25, 0.5, 3.0, 10.0, 100.0, 10.0 ** rng.uniform(-1.5, 2.5)))
+                sol = rng.choice(c11.SOLVERS)
+                jac = rng.choice(("DENSE", "SPARSE"))
+                info = {"model": mi, "kind": "random" if mi < nrandom else "directed", "state": si, "solver": sol, "cone": cone,
+                        "jacobian": jac, "impratio": impratio, "qpos": q, "qvel": v, "model_lines": mlines}
+                script.append("reset")
+                meta.append(("ok", None))
+                script.append("opt %d %d %d %d %r %r %d" % (E("mjSOL_" + sol), E("mjCONE_" + cone), E("mjJAC_" + jac), 50, 1e-8, impratio, 0))
+                meta.append(("ok", None))
+                for fld, val in (("qpos", q), ("qvel", v)):
+                    if val:
+                        script.append("set %s %s" % (fld, " ".join(repr(float(x)) for x in val)))
+                        meta.append(("ok", None))
+                script.append("fwdq")
+                meta.append(("fwdq", info))
+                script.append("impline")
+                meta.append(("impline", info))
+                script.append("updline 1")
+                meta.append(("updline", info))
+    return script, meta
+
+
+def parse_upd_line(line):
+    """an `upd` op line -> Upd (rows as floats)"""
+    w = line.split()
+    ne, nf, nefc, ncon = int(w[1]), int(w[2]), int(w[4]), int(w[5])
+    u = Upd()
+    u.ne, u.nf = ne, nf
+    t = w[6:]
+    for i in range(nefc):
+        a = t[6 * i:6 * i + 6]
+        u.rows.append((unhex(a[0]), unhex(a[1]), unhex(a[2]), unhex(a[3]), int(a[4]), int(a[5])))
+    t = t[6 * nefc:]
+    for c in range(ncon):
+        a = t[7 * c:7 * c + 7]
+        u.cons.append((int(a[0]), unhex(a[1]), [unhex(x) for x in a[2:7]]))
+    return u
+
+
+ENGINE_ZONES = ("b_bot", "b_bot", "b_bot_axis", "b_bot_axis", "b_top", "middle", "bottom", "engine")
+
+
+def engine_block_cases(rng, u, i0, con, lines, plan, info):
+    """finite-difference cases around the zone boundaries for ONE elliptic contact with the efc_D / contact.mu / friction that
+    the engine produced; the residuals are re-aimed (zone `engine`: the residual of the scene itself)"""
+    dim, mu, fr = con
+    n = dim - 1
+    Dl = [u.rows[i0 + j][0] for j in range(dim)]
+    Rl = [u.rows[i0 + j][1] for j in range(dim)]
+    if not (sane(mu, *Dl) and sane(*fr[:n]) and mu > 0 and all(d > 0 for d in Dl) and all(f > 0 for f in fr[:n])):
+        return
+    for zone in ENGINE_ZONES:
+        s = mod_scale(rng, 0.05, 5.0)
+        T = s
+        if zone == "engine":
+            jar = [u.rows[i0 + j][3] for j in range(dim)]
+            if not finite(*jar):
+                continue
+            N = jar[0] * mu
+            T = math.sqrt(sum((jar[j + 1] * fr[j]) ** 2 for j in range(n)))
+            s = max(abs(N), T)
+            if not (1e-9 < s < 1e9):
+                continue
+        else:
+            vec = [rng.gauss(0, 1) for _ in range(n)]
+            nv = math.sqrt(sum(x * x for x in vec)) or 1.0
+            U = [x / nv * T for x in vec]
+            if zone == "b_bot_axis":
+                kk = rng.randrange(n)
+                U = [T * rng.choice((-1, 1)) if j == kk else 0.0 for j in range(n)]
+            N = {"b_bot": -T / mu, "b_bot_axis": -T / mu, "b_top": mu * T, "middle": rng.uniform(-T / mu, mu * T) * 0.9,
+                 "bottom": -T / mu * (1 + rng.uniform(0.05, 2))}[zone]
+            jar = [N / mu] + [U[j] / fr[j] for j in range(n)]
+        v = Upd()
+        v.cons.append((dim, mu, fr))
+        for j in range(dim):
+            v.rows.append((Dl[j], Rl[j], 0.0, jar[j], ELL, 0))
+        v.tags.append("engine-ell:%d:%s" % (dim, zone))
+        v.info = info
+        # coordinate scales: the cost is piecewise quadratic in the normal residual (any step works; the tolerance scales with
+        # it), but depends on the tangential residuals through T = |U|: their step must be small relative to T itself
+        if not (T > 0 and T > 1e-12 * abs(N)):
+            continue
+        coords = [(0, Dl[0], max(abs(N), T) / mu)] + [(j, Dl[j], T / fr[j - 1]) for j in range(1, dim)]
+        add_fd(lines, plan, v, coords)
+
+
+def run_scenes(ctx, drv, impl, nrandom, ndirected, report=True):
+    """T: mj_makeImpedance(m, d) on the constraint rows of real scenes vs the Lean model (bitwise).
+    S: the impedance relation on the engine's efc_D / contact.mu, and finite differences of the real
+    mj_constraintUpdate_impl around the zone boundaries with the engine's parameters.  Returns (failures, stats)."""
+    script, meta = scene_script(ctx, nrandom, ndirected)
+    rc, outs, err = ctx.run_lines([impl], script)
+    fails, stats = [], {"forward_calls": 0, "elliptic_contacts": 0, "pyramidal_contacts": 0, "impratio_ne_1": 0, "anisotropic": 0,
+                        "by_condim": {}, "fd_blocks": 0}
+    if rc != 0 or len(outs) != len(meta):
+        return [("c12:scene-crash", "constraint harness crashed or lost sync on engine scenes (rc=%s, %d outputs for %d commands)"
+                 % (rc, len(outs), len(meta)), {"stderr": err[-500:]})], stats
+    imp_ops, imp_obs, imp_info = [], [], []
+    fl, plan, updlines = [], [], []
+    for (kind, info), o in zip(meta, outs):
+        if kind == "model" and not o.startswith("ok"):
+            stats["model_errors"] = stats.get("model_errors", 0) + 1
+        elif kind == "fwdq" and o.startswith("ok"):
+            stats["forward_calls"] += 1
+        elif kind == "impline" and o.startswith("imp ") and " => " in o:
+            a, b = o.split(" => ", 1)
+            imp_ops.append(a)
+            imp_obs.append(b)
+            imp_info.append(info)
+        elif kind == "updline" and o.startswith("upd "):
+            updlines.append(o)
+            u = parse_upd_line(o)
+            nblk = 0
+            for (bk, i0, n, con) in c11.walk_blocks(u):
+                if bk == "nonneg" and u.rows[i0][4] == PYR:
+                    stats["pyramidal_contacts"] += 1   # rows, not contacts: counted per row
+                if bk != "ell":
+                    continue
+                dim, mu, fr = con
+                stats["elliptic_contacts"] += 1
+                stats["by_condim"][str(dim)] = stats["by_condim"].get(str(dim), 0) + 1
+                if info["impratio"] != 1.0:
+                    stats["impratio_ne_1"] += 1
+                if dim >= 3 and fr[0] != fr[1]:
+                    stats["anisotropic"] += 1
+                D = [u.rows[i0 + j][0] for j in range(dim)]
+                if sane(mu, *D) and sane(*fr[:dim - 1]):
+                    for (j, a, b) in relation_failures(D[0], D[1:], mu, fr):
+                        fails.append(("c12:impedance-relation",
+                                      "after mj_forward (cone elliptic, impratio %r): contact %d of dim %d, friction %r: row %d has efc_D*mu^2 = %r but "
+                                      "efc_D[normal]*friction^2 = %r, i.e. the parameters handed to mj_constraintUpdate_impl do not satisfy "
+                                      "the relation under which its bottom-zone and middle-zone formulas join continuously"
+                                      % (info["impratio"], u.rows[i0][5], dim, fr[:dim - 1], j, a, b),
+                                      {"scene": info, "contact": u.rows[i0][5], "efc_D": D, "mu": mu, "friction": fr,
+                                       "replay": "feed `model` + scene.model_lines + `end`, `opt`, `set qpos/qvel`, `fwdq`, `updline 1` to <c11_constraint harness>"}))
+                if nblk < 6:
+                    nblk += 1
+                    stats["fd_blocks"] += 1
+                    engine_block_cases(ctx.rng, u, i0, con, fl, plan, info)
+    # ---- T: model of mj_makeImpedance vs the real function on the rows of the scenes
+    if imp_ops:
+        rc_m, om, em = ctx.run_lines([drv], imp_ops)
+        if rc_m != 0 or len(om) != len(imp_ops):
+            raise common_infra("model driver failed on the imp lines of the scenes: rc=%s %s" % (rc_m, em[-300:]))
+        badt = [{"line": a, "model": x, "impl": b, "scene": {k: v for k, v in i.items() if k != "model_lines"}}
+                for a, x, b, i in zip(imp_ops, om, imp_obs, imp_info) if x != b]
+        for a in imp_ops:
+            ctx.count(a)
+        if report:
+            ctx.oblige("correspondence mj_makeImpedance(m, d) on the constraint rows of generated scenes (efc_R, efc_D, contact.mu) vs Lean "
+                       "model on Float (bitwise) (%d calls)" % len(imp_ops), "correspondence", not badt, json_short(badt[:3]))
+            if badt:
+                ctx.disagreements += [dict(b, stream="mj_makeImpedance on scenes") for b in badt[:20]]
+        stats["imp_scene_calls"] = len(imp_ops)
+        stats["imp_scene_mismatches"] = len(badt)
+    if updlines and report:
+        ctx.differential("mj_constraintUpdate_impl on the efc rows of the scenes (jar = J qacc - aref) vs Lean model on Float (bitwise)",
+                         [drv], [impl], updlines, keyf=c11.keyf)
+    # ---- S: finite differences with the engine's parameters
+    if fl:
+        rc2, o2, err2 = ctx.run_lines([impl], fl)
+        if rc2 != 0 or len(o2) != len(fl):
+            fails.append(("c12:crash", "constraint harness crashed on the engine-parameter finite-difference lines", {"stderr": err2[-300:]}))
+        else:
+            fb, st = fd_oracle(plan, o2)
+            stats["fd_engine"] = st
+            byline = {pu.line(1): pu.info for (pu, b, e) in plan}
+            for key, what, rep in fb:
+                inf = byline.get(rep["line"], {})
+                fails.append((key, "with the efc_D / contact.mu that mj_forward produced (cone elliptic, impratio %r): %s" % (inf.get("impratio"), what),
+                              dict(rep, scene=inf, replay="feed `line` with jar[row] +- h to <c11_constraint harness> and difference the returned "
+                                                          "costs; the D / mu in `line` are the engine's own (scene: model_lines, qpos, qvel, options)")))
+    return fails, stats
+
+
+def json_short(x):
+    import json
+    return json.dumps(x)[:3000]
+
+
+def common_infra(msg):
+    from checks import common
+    return common.Infra(msg)
+
+
 def run(ctx):
     thorough = ctx.tier == "thorough"
-    ctx.rule = ("tie: as C11 (seeded independently); oracle: for well-scaled single and multi-block calls with impedance-related cone "
+    ctx.rule = ("tie: as C11 (seeded independently), plus `imp` lines: mj_makeImpedance on assembled rows (scalar rows, elliptic and "
+                "pyramidal blocks of dim 2..6, anisotropic / tiny friction, impratio 1 / != 1 / degenerate (0, negative, below mjMINVAL, "
+                "inf, nan), diagA incl. 0 / negative / huge, contacts in shuffled order, malformed ops) and the real mj_makeImpedance(m, d) "
+                "re-run on the rows of generated scenes (gen/models.py bodies + explicit floor <pair>s, and bodies resting on the floor "
+                "with one <pair> each; cone elliptic x2 / pyramidal, impratio in {1, .25, .5, 3, 10, 100, log-uniform}); "
+                "oracle: the relation efc_D[j]*mu^2 = efc_D[0]*friction[j]^2 (1e-9) on every elliptic block of both, and the "
+                "finite-difference oracle on single-contact calls that carry the engine's efc_D / mu / friction with residuals on the "
+                "bottom / top zone boundary (random and single-axis tangential direction), in the middle and bottom zone and at the "
+                "scene's own residual; further, for well-scaled single and multi-block calls with impedance-related cone "
                 "parameters, every residual coordinate is perturbed by +-2e-7*scale and +-1e-6*scale around base points in every zone "
                 "interior, on both zone boundaries, at the apex, on the cone axis and at the friction-loss / one-sided kinks; the "
                 "central difference of the RETURNED cost is compared with the RETURNED force (tolerance 1e-6*max(|f|, D*scale) + "
@@ -305,7 +781,7 @@ def run(ctx):
         if rc == 0 and len(outs) == len(fl):
             fails, stats = fd_oracle(plan, outs)
             for k, v in stats.items():
-                stats_tot[k] = stats_tot.get(k, 0) + v
+                stats_tot[k] = max(stats_tot.get(k, 0), v) if k.startswith("max_") else stats_tot.get(k, 0) + v
             for key, what, rep in fails:
                 nfail += 1
                 if nfail <= 8:
@@ -326,9 +802,47 @@ def run(ctx):
         nfail += 1
         if nfail <= 10:
             ctx.oracle_failure(key, what, rep)
+    # ---- mj_makeImpedance: T on assembled rows (standard differential), S = impedance relation on the real function's output
+    cases = [gen_imp_case(ctx.rng) for _ in range(20000 if thorough else 4000)]
+    il = [imp_line(*c[:4]) for c in cases]
+    ihist = {}
+    for c in cases:
+        for t in c[4]:
+            ihist[t] = ihist.get(t, 0) + 1
+        k = "impratio=1" if c[1] == 1.0 else ("impratio other" if finite(c[1]) and c[1] > 1e-15 else "impratio degenerate")
+        ihist[k] = ihist.get(k, 0) + 1
+    ctx.extra["makeImpedance_synthetic_distribution"] = ihist
+    ctx.differential("mj_makeImpedance (efc_R, efc_D, contact.mu) on assembled rows vs Lean model on Float (bitwise)",
+                     [drv], [impl], il + IMP_MALFORMED, keyf=lambda l: l if len(l.split()) > 12 else None)
+    rc, io, err = ctx.run_lines([impl], il + IMP_MALFORMED)
+    if rc == 0 and len(io) == len(il) + len(IMP_MALFORMED):
+        for c, o in zip(cases, io):
+            for key, what in imp_oracle(c, o):
+                nfail += 1
+                if nfail <= 10:
+                    ctx.oracle_failure(key, what, {"line": imp_line(*c[:4]), "impl_output": o[:1500], "replay": "echo '<line>' | <c11_constraint harness>"})
+        for l, o in zip(IMP_MALFORMED, io[len(il):]):
+            if o not in ("bad-op", "oob"):
+                ctx.oracle_failure("c12:malformed-accepted", "malformed / out-of-range imp op accepted", {"line": l, "impl_output": o})
+        ctx.sample({"op": il[5][:200] + " ...", "tags": cases[5][4], "impl_output": io[5][:200]})
+    else:
+        ctx.oracle_failure("c12:crash", "constraint harness crashed on the imp lines (rc=%s)" % rc, {"stderr": err[-500:]})
+    # ---- engine scenes: mj_makeImpedance(m, d) tied on real rows; relation + boundary finite differences with the engine's parameters
+    sf, sstats = run_scenes(ctx, drv, impl, 40 if thorough else 8, 40 if thorough else 8)
+    ctx.extra["engine_scene_stats"] = sstats
+    seen_keys = {}
+    for key, what, rep in sf:
+        nfail += 1
+        seen_keys[key] = seen_keys.get(key, 0) + 1
+        if seen_keys[key] <= 3:
+            ctx.oracle_failure(key, what, rep)
     ctx.extra["oracle_failures"] = nfail
 
     def directed(c):
+        for rnd in range(4):
+            sf2, _ = run_scenes(c, drv, impl, 10, 20, report=False)
+            if sf2:
+                return {"key": sf2[0][0], "what": sf2[0][1], "replay": sf2[0][2]}
         for rnd in range(10):
             fl2, plan2 = fd_lines(c.rng, 1500)
             rc2, o2, _ = c.run_lines([impl], fl2)
